@@ -6,6 +6,7 @@ mod ops_cache;
 mod ops_checker;
 mod ops_claim;
 mod ops_fetch;
+mod ops_crash;
 
 use std::io::{BufRead, Write};
 
@@ -14,6 +15,7 @@ fn main() {
     let mode = args.get(1).map(|s| s.as_str()).unwrap_or("serve");
     match mode {
         "serve" => serve(),
+        "crashchild" => ops_crash::child_main(&args[2..]),
         other => {
             eprintln!("unknown mode {other}");
             std::process::exit(2);
@@ -40,6 +42,9 @@ fn serve() {
         let fields: Vec<String> = it.map(util::unhex).collect();
         let res = std::panic::catch_unwind(std::panic::AssertUnwindSafe(|| {
             if let Some(r) = ops_cache::dispatch(&mut cst, &op, &fields) {
+                return r;
+            }
+            if let Some(r) = ops_crash::dispatch(&mut cst, &op, &fields) {
                 return r;
             }
             if let Some(r) = ops_fetch::dispatch(&mut cst, &op, &fields) {
